@@ -32,12 +32,23 @@ RULE = ("cases drawn from one seeded stream: state size n in 1..5, sub-measureme
         "blocks (6%, cond 1e5..1e8); measurement smaller than one block (m < s, a quarter of the size mismatches); output object with MORE components "
         "than the belief (8%: the extra components must be kept bit for bit); output object with FEWER components (a handful, run only where Eigen's "
         "assertions are compiled in: the out-of-bounds write must be stopped by the assertion). "
-        "SEQUENCE cases (120 quick / 4000 thorough): ONE SUKFCorrection object per constructor flag and ONE UKFCorrection object are "
+        "SEQUENCE cases (400 quick / 4000 thorough): ONE SUKFCorrection object per constructor flag and ONE UKFCorrection object are "
         "driven through 2..4 correct()+getLikelihood() calls; between calls the harness measurement model is re-programmed and the belief "
         "replaced: nothing / R (same size, other blocks) / y / h / prior / number of components / measurement size (other k) / everything / "
         "a size that is not a multiple of s; after EVERY call the implementation is compared with the stateless model run on that call's "
         "inputs and SUKF with UKF (signatures carry step=<t>:<what changed before that call>); all sequence cases are non-trivial, "
-        "distinct by (n, s, change labels, equal blocks, k per call)")
+        "distinct by (n, s, change labels, equal blocks, k per call, lifetime). "
+        "OBJECT LIFETIME (every case, single and sequence; the SUKFCorrection objects of both constructor flags AND the UKFCorrection they are compared with): "
+        "55% fresh (constructed in place), 15% moved (the subject is move-constructed from a fresh object), 15% moved_after_use (move-constructed from an object "
+        "that has completed 1..T-1 correct()+getLikelihood() calls: the sequence's own calls, or in a single-call case a warm-up call on other data of the same shapes), "
+        "15% vector (the subject is element 0 of a std::vector that reallocates through emplace_back after 0..T-1 calls); move ASSIGNMENT is used instead of "
+        "move construction for half of the moved cases when the class offers it (compile-time dispatch; neither class does today: move_assignable = 0). "
+        "CALLBACK RE-ENTRANCY (25% of all cases): inside every callback of the subjects' measurement models twin objects (SUKFCorrection per flag, UKFCorrection; "
+        "own models, other data of the same shapes) run a complete correct()+getLikelihood(); expected results unchanged. "
+        "PHYSICAL UNITS: 40% of the steps with the state in a unit L = 10^U(-5,4) (means L, P L^2, H / L, G / L), 60% with the sub-measurement blocks in units "
+        "e_j = 10^U(-3,3) (y, b, g, rows of H by e_j, R_j by e_j^2; one common e when the blocks are equal so that the reduced constructor can be run, independent "
+        "e_j per block otherwise: spans up to 10^6 between blocks of one measurement); not for angle rows; in sequences the units are re-drawn when the parts they "
+        "belong to are replaced. Tolerances are carried by the same factors (conditioning measured on the de-scaled innovation covariance).")
 TRUSTED_BASE = ["Coq 8.16.1 kernel (coqc); no axioms (Print Assumptions: closed under the global context)",
                 "MathComp 1.15 matrix theory",
                 "extraction (ExtrOcamlBasic only) and ocaml/float_ops.ml, ocaml/drv_C05.ml, ocaml/caseio.ml",
@@ -46,7 +57,12 @@ TRUSTED_BASE = ["Coq 8.16.1 kernel (coqc); no axioms (Print Assumptions: closed 
                 "mean 5e-11 * K_i * |mean shift|, K_i = cond(I + Y_i^T R^-1 Y_i) + max_j cond(R_j) for the serial form, cond(Pyy_i) for the gain form, their sum for SUKF vs UKF "
                 "(both routes cancel from the prior's magnitude; measured worst 3.4e-15 / 1.8e-13 of these scales over 14000 components), comparisons whose covariance tolerance exceeds 1% of the largest "
                 "posterior entry excluded and counted; log-likelihood 1e-11 (impl vs model) / 1e-10 (SUKF vs UKF) times "
-                "cond(I+Y^T R^-1 Y)*(1+nu^T R^-1 nu), comparisons with that factor > 1e7 excluded and counted",
+                "(cond(I+Y^T R^-1 Y) + max_j cond(R_j))*(1+nu^T R^-1 nu), comparisons with that factor > 1e7 excluded and counted; a likelihood that went through the gain form "
+                "(UKFCorrection: dense inverse and determinant of Pyy) additionally 1e-13 * cond(Pyy as inverted) * (1 + nu^T Pyy^-1 nu) (measured worst 1.8e-15 of that scale), excluded and counted beyond 1e-3; "
+                "with the blocks of a measurement in DIFFERENT units the gain form inverts E Pyy E with row-pivoted LU and its conditioning is that of the scaled matrix: the UKFCorrection side is then compared with "
+                "K_u = cond(E Pyy E) (mostly excluded, counted) and the serial correction is compared in addition with the standard additive correction evaluated by numpy in unit-free coordinates "
+                "(signatures C05:sukf-ne-standard-ukf:*, tolerance K_s + cond(Pyy)); with physical units (state unit L, block units e_j) the same tolerances "
+                "times L (mean) and L^2 (covariance), the log-likelihood tolerance unchanged, cond(Pyy) taken of E^-1 Pyy E^-1 (the largest observed fraction of each tolerance is recorded in the evidence: worst_fraction_of_tolerance, separately for cases with units)",
                 "correspondence is sampled: agreement is established on the generated cases only",
                 "IEEE rounding is not modelled (theorems over an exact real field)"]
 ASSUMPTIONS = ["Eigen's jacobiSvd factor A = U sqrt(s) satisfies A A^T = P for symmetric PSD P (premise of the theorems; checked on every case)",
@@ -57,11 +73,14 @@ ASSUMPTIONS = ["Eigen's jacobiSvd factor A = U sqrt(s) satisfies A A^T = P for s
                "the output object has at least as many components as the predicted belief (fewer: out-of-bounds write, Eigen assertion)",
                "0 < measurement_sub_size (meas_size % 0 is undefined behaviour in C++)",
                "one correct() call depends only on that call's inputs (model is a pure function; checked on sequence cases that reuse one object while R, y, h, belief, sizes change)",
+               "an object obtained by move construction / vector relocation computes the same function as a constructed one (the model has no object identity; checked on the lifetime = moved / moved_after_use / vector cases); "
+               "the last step's likelihood and the skip flag are NOT carried by the library's move constructors: outside the property (it speaks about the results of a correct() call)",
+               "a correction of another object running inside a callback of the measurement model does not change the result (model functions are pure; checked on the intrude = 1 cases)",
                "the measurement model reports valid measurement, prediction and innovation (the validity-flag prefix is C12's subject)"]
 
 RTOL_COV, RTOL_MEAN = 5e-12, 5e-11     # see comp_tols: about 500 x the measured worst case
 OUTFEWER_P = {"quick": 0.405, "thorough": 0.4015}     # upper end of the probability slot of the out-of-bounds variant (few cases: each ends the harness process)
-COUNTS = {"quick": (300, 120), "thorough": (10000, 4000)}   # (single-call cases, sequence cases of 2-4 calls)
+COUNTS = {"quick": (1200, 400), "thorough": (10000, 4000)}   # (single-call cases, sequence cases of 2-4 calls)
 
 
 def ut_params(rng, n):
@@ -150,13 +169,70 @@ def gen_step(rng, n, s, k, comps, mult, equal):
     return st
 
 
-def put_step(c, st, suf, with_block):
+def draw_units(rng, st, s, equal, new_L=True, new_e=True):
+    """Physical units.  The problem is homogeneous: with the state in units of L (x -> L x: means L, P L^2) and sub-measurement
+    block j in units of e_j (E = diag(e_j I_s):  y -> E y,  R -> E R E,  h'(x') = E h(x'/L), i.e. H -> E H / L, b -> E b, g -> E g,
+    G, G2 -> G / L, G2 / L) the corrected mean scales by L, the covariance by L^2 and the likelihood by 1 / det E; the matrices
+    the serial form inverts (R_j up to the scalar e_j^2, I + Y^T R^-1 Y exactly) and the de-scaled innovation covariance keep
+    their conditioning, so the calibrated tolerances are carried by the same factors.  The serial correction treats the blocks
+    separately: a per-block slip shows where the blocks are in different units.  With the shared block of the reduced
+    constructor (equal = 1) all blocks are in one unit.  The generators stay unit free; units are applied when a step is written."""
+    m = st["m"]
+    if new_L:
+        st["L"] = 10.0 ** rng.uniform(-5, 4) if rng.random() < 0.4 else 1.0
+    if new_e:
+        st["e"] = np.ones(m)
+        if rng.random() < 0.6:
+            nb = -(-m // s)
+            if equal or rng.random() < 0.2:
+                eb = [10.0 ** rng.uniform(-3, 3)] * nb
+            else:
+                eb = [10.0 ** rng.uniform(-3, 3) for _ in range(nb)]
+            st["e"] = np.repeat(np.array(eb), s)[:m]
+
+
+def with_units(st):
+    """the step in its units (see draw_units)"""
+    L = float(st.get("L", 1.0)); e = np.asarray(st.get("e", np.ones(st["m"])), dtype=float).reshape(-1, 1)
+    out = dict(st)
+    out["H"] = st["H"] * e / L; out["G"] = st["G"] / L; out["G2"] = st["G2"] / L
+    out["b"] = st["b"] * e; out["g"] = st["g"] * e; out["y"] = st["y"] * e
+    out["Rfull"] = st["Rfull"] * (e @ e.T)                 # e e^T is exactly symmetric, so the product is
+    out["blocks"] = [st["blocks"][0] * (e[0, 0] * e[0, 0])]
+    out["means"] = st["means"] * L; out["covs"] = [P * L * L for P in st["covs"]]
+    return out
+
+
+def espan(st):
+    e = np.asarray(st.get("e", [1.0]), dtype=float)
+    return float(np.max(e) / np.min(e))
+
+
+def put_step(c, st0, suf, with_block):
+    st = with_units(st0)
     for nm in ("H", "G", "G2", "b", "g", "y", "Rfull"):
         c.mat(nm + suf, st[nm])
     if with_block:
         c.mat("Rblock" + suf, st["blocks"][0])
     c.mat("means" + suf, st["means"]).mat("covs" + suf, np.hstack(st["covs"])).mat("weights" + suf, st["w"].reshape(-1, 1))
     c.int("hkind" + suf, st["hkind"])
+    # the units, for the tolerances (not read by the harness or the model)
+    c.mat("unit_L" + suf, [[float(st0.get("L", 1.0))]]).mat("unit_e" + suf, np.asarray(st0.get("e", np.ones(st0["m"])), dtype=float).reshape(-1, 1))
+
+
+def draw_lifetime(rng, c, steps):
+    """How the SUKFCorrection / UKFCorrection objects of the case are obtained (harness: OBJECT LIFETIME) and whether twin
+    objects run inside the measurement model's callbacks (CALLBACK RE-ENTRANCY)."""
+    lifetime = rng.choice(["fresh"] * 11 + ["moved"] * 3 + ["moved_after_use"] * 3 + ["vector"] * 3)
+    reloc_at = 0
+    if lifetime == "moved_after_use":
+        reloc_at = rng.randint(1, max(1, steps - 1))
+    elif lifetime == "vector":
+        reloc_at = rng.randint(0, max(1, steps - 1))
+    assign = 1 if rng.random() < 0.5 else 0
+    intrude = 1 if rng.random() < 0.25 else 0
+    c.meta.update({"lifetime": lifetime, "reloc_at": reloc_at, "intrude": intrude})
+    c.word("lifetime", [lifetime]).int("reloc_at", reloc_at).int("assign", assign).int("intrude", intrude)
 
 
 LABELS = ["same", "R", "R", "y", "y", "h", "h", "prior", "prior", "comps", "size", "size", "all", "mismatch"]
@@ -189,12 +265,24 @@ def next_step(rng, prev, n, s, equal):
         m2 = k * s + rng.randint(1, s - 1)
         st.update({"m": m2, "mult": 0})
         st.update(gen_h(rng, m2, n)); st.update(gen_noise(rng, s, k, m2, 0, equal)); st["y"] = gen_y(rng, st)
+    # units: the state's unit belongs to the prior (re-drawn only when everything changes), the blocks' units to h / R / y
+    # (re-drawn when all three are replaced); a mismatching measurement is returned unchanged whatever the units
+    if label in ("all", "size", "mismatch"):
+        draw_units(rng, st, s, equal or not st["mult"], new_L=(label == "all"), new_e=True)
     return st, label
 
 
 def generate(rng, tier):
+    return generate_counts(rng, tier, *COUNTS[tier])
+
+
+def search_cases(rng):
+    """the widened search (runner.widen_if_needed): single-call and sequence cases, not only the head of the thorough list"""
+    return generate_counts(rng, "thorough", 2200, 800)
+
+
+def generate_counts(rng, tier, nsingle, nseq):
     cases = []
-    nsingle, nseq = COUNTS[tier]
     for idx in range(nsingle):
         n = rng.randint(1, 5); s = rng.randint(1, 3); k = rng.randint(1, 4); comps = rng.randint(1, 3)
         mult = 1
@@ -253,6 +341,12 @@ def generate(rng, tier):
             st["y"] = gen_y(rng, st)
         if var == "circmeas":
             mc = rng.randint(1, st["m"])
+        # angles are in radians: no unit for a state / a measurement with circular rows
+        draw_units(rng, st, s, equal or var == "circstate", new_L=(var != "circstate"), new_e=(var != "circmeas"))
+        if var == "circstate":
+            st["L"] = 1.0
+        if var == "circmeas":
+            st["e"] = np.ones(st["m"])
         outcomps = comps
         if var == "outmore":
             outcomps = comps + rng.randint(1, 2)
@@ -260,8 +354,9 @@ def generate(rng, tier):
             outcomps = comps - 1
         c = caseio.Case(idx, "sukf", {"n": n, "m": st["m"], "s": s, "k": k, "comps": comps, "hkind": st["hkind"], "mult": mult,
                                       "equal": equal, "rankdef": st["rankdef"], "negwc": negwc, "var": var, "nc": nc, "mc": mc,
-                                      "outcomps": outcomps,
+                                      "outcomps": outcomps, "L": "%.3g" % st["L"], "espan": "%.3g" % espan(st),
                                       "cond": "%.3g" % max(st["condP"], st["condR"]), "wc0": "%.3g" % wc0})
+        draw_lifetime(rng, c, 2)
         put_step(c, st, "", equal)
         c.mat("params", np.array([[alpha, beta, kappa]])).int("s", s)
         if nc:
@@ -279,6 +374,7 @@ def generate(rng, tier):
         alpha, beta, kappa, wc0, cc = ut_params(rng, n)
         equal = 1 if rng.random() < 0.5 else 0
         steps, labels = [gen_step(rng, n, s, k, comps, 1, equal)], ["first"]
+        draw_units(rng, steps[0], s, equal)
         for t in range(1, T):
             st, lab = next_step(rng, steps[-1], n, s, equal)
             steps.append(st); labels.append(lab)
@@ -286,8 +382,10 @@ def generate(rng, tier):
         for t, (st, lab) in enumerate(zip(steps, labels), 1):
             meta.update({"m_%d" % t: st["m"], "k_%d" % t: st["k"], "comps_%d" % t: st["comps"], "hkind_%d" % t: st["hkind"],
                          "mult_%d" % t: st["mult"], "rankdef_%d" % t: st["rankdef"],
-                         "cond_%d" % t: "%.3g" % max(st["condP"], st["condR"]), "lbl_%d" % t: lab})
+                         "cond_%d" % t: "%.3g" % max(st["condP"], st["condR"]), "lbl_%d" % t: lab,
+                         "L_%d" % t: "%.3g" % st["L"], "espan_%d" % t: "%.3g" % espan(st)})
         c = caseio.Case("q%d" % idx, "sukf_seq", meta)
+        draw_lifetime(rng, c, T)
         for t, st in enumerate(steps, 1):
             put_step(c, st, "_%d" % t, equal)
         c.mat("params", np.array([[alpha, beta, kappa]])).int("s", s).int("steps", T)
@@ -303,6 +401,9 @@ def step_view(c, t):
         meta[k] = c.meta["%s_%d" % (k, t)]
     meta["second"] = 0
     meta.update({"var": "plain", "nc": 0, "mc": 0, "outcomps": meta["comps"]})
+    for k in ("lifetime", "reloc_at", "intrude"):
+        if k in c.meta:
+            meta[k] = c.meta[k]
     v = caseio.Case(c.id, "sukf", meta)
     for tag, name, val in c.ops:
         if name.endswith(suf):
@@ -326,17 +427,31 @@ def rec_view(rec, t):
 def nontrivial(c):
     if c.kind == "sukf_seq":
         return ("seq", int(c.meta["n"]), int(c.meta["s"]), str(c.meta["labels"]), str(c.meta["equal"]),
-                tuple(int(c.meta["k_%d" % t]) for t in range(1, int(c.meta["steps"]) + 1)))
+                tuple(int(c.meta["k_%d" % t]) for t in range(1, int(c.meta["steps"]) + 1)), str(c.meta.get("lifetime", "fresh")))
     n, s, k, comps = int(c.meta["n"]), int(c.meta["s"]), int(c.meta["k"]), int(c.meta["comps"])
     kind, mult = int(c.meta["hkind"]), int(c.meta["mult"])
     if k >= 2 or comps >= 2 or kind != 0 or mult == 0 or str(c.meta.get("var", "plain")) != "plain":
         return (n, s, k, comps, kind, str(c.meta["equal"]), mult, str(c.meta["rankdef"]), str(c.meta.get("var", "plain")),
-                str(c.meta.get("nc", 0)), str(c.meta.get("mc", 0)))
+                str(c.meta.get("nc", 0)), str(c.meta.get("mc", 0)), str(c.meta.get("lifetime", "fresh")))
     return None
 
 
 def prefixes(c):
     return (["r_"] if c.has("Rblock") else []) + ["f_"]
+
+
+def unit_L(c):
+    return float(c.get("unit_L")[0, 0]) if c.has("unit_L") else 1.0
+
+
+def unit_e(c):
+    return c.get("unit_e").reshape(-1) if c.has("unit_e") else np.ones(c.get("Rfull").shape[0])
+
+
+def descaled(c, S):
+    """an m x m matrix of the measurement space (Pyy) brought back to unit-free blocks: E^-1 S E^-1"""
+    e = unit_e(c)
+    return S / np.outer(e, e) if S.shape == (e.size, e.size) else S
 
 
 def case_cond(c, model):
@@ -346,13 +461,15 @@ def case_cond(c, model):
         for i in range(int(c.meta["comps"])):
             S = model.get("u_Pyy%d" % i)
             if S is not None and np.all(np.isfinite(S)):
-                cond = max(cond, float(np.linalg.cond(S)))
+                cond = max(cond, float(np.linalg.cond(descaled(c, S))))
     return cond
 
 
 def lik_scale(c, model, i):
-    """conditioning of the UVR likelihood of component i: cond(I + Y^T R^-1 Y) * (1 + nu^T R^-1 nu): the quadratic form
-    nu^T R^-1 (I - Y C Y^T R^-1) nu cancels from magnitude nu^T R^-1 nu, through the inverse of C^-1."""
+    """conditioning of the UVR likelihood of component i: (cond(I + Y^T R^-1 Y) + max_j cond(R_j)) * (1 + nu^T R^-1 nu): the
+    quadratic form nu^T R^-1 (I - Y C Y^T R^-1) nu cancels from magnitude nu^T R^-1 nu, through the inverse of C^-1 and the
+    inverses of the noise blocks (the same K_s as for mean and covariance, see comp_tols; without the cond(R_j) term the
+    ill-conditioned-noise variant used up to 49 % of the tolerance over 14000 cases, with it 3e-5)."""
     if model is None or model.get("f_Y%d" % i) is None:
         return LIK_SCALE_MAX          # no model output: the loosest tolerance that is still accepted
     Y, nu, R = model.get("f_Y%d" % i), model.get("f_innov%d" % i), blockdiag_of(c)
@@ -360,15 +477,17 @@ def lik_scale(c, model, i):
         return LIK_SCALE_MAX
     Ri = np.linalg.inv(R)
     C = np.eye(Y.shape[1]) + Y.T @ Ri @ Y
-    return float(np.linalg.cond(C)) * (1.0 + float((nu.T @ Ri @ nu)[0, 0]))
+    s_ = int(c.meta["s"])
+    kr = max([float(np.linalg.cond(R[j * s_:(j + 1) * s_, j * s_:(j + 1) * s_])) for j in range(R.shape[0] // s_)] or [1.0])
+    return (float(np.linalg.cond(C)) + kr) * (1.0 + float((nu.T @ Ri @ nu)[0, 0]))
 
 
-EXCLUDED = {"likelihood_ill_conditioned": 0, "mean_cov_ill_conditioned": 0}
+EXCLUDED = {"likelihood_ill_conditioned": 0, "mean_cov_ill_conditioned": 0, "sukf_vs_ukf_mean_cov": 0, "ukf_likelihood": 0}
 LIK_SCALE_MAX = 1e7      # beyond this the likelihood comparison is excluded (and counted): the tolerance would exceed 1e-3 in the log
 LIK_RTOL_MODEL, LIK_RTOL_UKF = 1e-11, 1e-10    # measured: |log a - log b| <= 2e-14 * lik_scale over 1200 cases
 
 
-def lik_close(a, b, tol):
+def lik_close(a, b, tol, kind=None, c=None):
     """log-domain comparison of two likelihood values"""
     if a is None or b is None:
         return False
@@ -377,6 +496,8 @@ def lik_close(a, b, tol):
         return True
     if not (a > 0 and b > 0):
         return max(a, b) < 1e-290 and min(a, b) >= 0     # one of them underflowed
+    if kind is not None and c is not None and tol > 0 and math.isfinite(a) and math.isfinite(b):
+        note(kind, abs(math.log(a) - math.log(b)) / tol, c)
     return abs(math.log(a) - math.log(b)) <= tol
 
 
@@ -392,12 +513,60 @@ def step_label(c, t):
     return "step=%d:%s" % (t, CHANGED.get(lab, lab + "-changed"))
 
 
+WORST = {}     # largest observed difference as a fraction of its tolerance, per comparison (evidence: how much room the tolerances leave)
+
+
+WORST_CASE = {}
+
+
+def note(kind, frac, c):
+    if frac > WORST.get(kind, 0.0):
+        WORST[kind] = frac; WORST_CASE[kind] = "%s(var=%s)" % (c.id, c.meta.get("var", "seq"))
+
+
+def has_units(c):
+    return unit_L(c) != 1.0 or bool(np.any(unit_e(c) != 1.0))
+
+
+def within(kind, c, a, b, tol):
+    """caseio.close(a, b, tol, 0), recording the fraction of the tolerance used"""
+    ok = caseio.close(a, b, tol, 0)
+    if a is not None and b is not None and tol > 0:
+        d = caseio.maxdiff(a, b)
+        if math.isfinite(d):
+            note(kind + (":units" if has_units(c) else ""), d / tol, c)
+    return ok
+
+
+def setup_diffs(c, impl):
+    """the harness did what the case asks for (object lifetime, intruder)"""
+    d = []
+    if impl.get("skipped") == 1:
+        return d
+    if str(c.meta.get("lifetime", "fresh")) != "fresh" and not (impl.get("relocations") or 0) >= 2:
+        d.append("harness: the subjects were not relocated (lifetime=%s)" % c.meta["lifetime"])
+    if str(c.meta.get("intrude", "0")) == "1" and not (impl.get("intruder_calls") or 0) > 0:
+        d.append("harness: the intruder never ran")
+    return d
+
+
+def sig_suffix(c, t=None):
+    """failing input class: how the object was obtained (from the call after the relocation on) / twin objects in the callbacks"""
+    s = ""
+    lt = str(c.meta.get("lifetime", "fresh"))
+    if lt != "fresh" and (t is None or t > int(c.meta.get("reloc_at", 0))):
+        s += ":lifetime=" + lt
+    if str(c.meta.get("intrude", "0")) == "1":
+        s += ":intrude"
+    return s
+
+
 def compare(c, impl, model):
     """Sequence cases: the model is stateless, so call t of the implementation's objects is compared with the model run on
     call t's inputs alone; any difference is state leaking from an earlier call."""
     if c.kind != "sukf_seq":
-        return compare_single(c, impl, model)
-    d = caseio.compare_fields(impl, model, ["wm", "wc", "c"], atol=1e-15, rtol=1e-14)
+        return setup_diffs(c, impl) + compare_single(c, impl, model)
+    d = setup_diffs(c, impl) + caseio.compare_fields(impl, model, ["wm", "wc", "c"], atol=1e-15, rtol=1e-14)
     for t in range(1, int(c.meta["steps"]) + 1):
         d += ["%s: %s" % (step_label(c, t), x) for x in compare_single(step_view(c, t), rec_view(impl, t), rec_view(model, t), top=False)]
     return d
@@ -405,10 +574,10 @@ def compare(c, impl, model):
 
 def oracle(c, impl, model):
     if c.kind != "sukf_seq":
-        return oracle_single(c, impl, model)
+        return [(sig + sig_suffix(c), detail) for sig, detail in oracle_single(c, impl, model)]
     v = []
     for t in range(1, int(c.meta["steps"]) + 1):
-        v += [("%s:%s" % (sig, step_label(c, t)), detail) for sig, detail in oracle_single(step_view(c, t), rec_view(impl, t), rec_view(model, t))]
+        v += [("%s:%s%s" % (sig, step_label(c, t), sig_suffix(c, t)), detail) for sig, detail in oracle_single(step_view(c, t), rec_view(impl, t), rec_view(model, t))]
     return v
 
 
@@ -440,6 +609,77 @@ def blockdiag_of(c):
     return D
 
 
+def pyy_conds(c, model, i, fallback=1e7):
+    """(cond(Pyy) in unit-free blocks, cond of the matrix the gain form actually inverts = E Pyy E); equal unless the blocks
+    of the measurement are in different units"""
+    S = model.get("u_Pyy%d" % i) if model is not None else None
+    if S is None or not np.all(np.isfinite(S)):
+        return fallback, fallback
+    k0 = float(np.linalg.cond(descaled(c, S)))
+    e = unit_e(c)
+    return k0, (max(k0, float(np.linalg.cond(S))) if np.ptp(e) > 0 else k0)
+
+
+GAIN_LIK_RTOL = 1e-13    # about 1000 eps; measured worst over the thorough sample: see worst_fraction_of_tolerance (gain-form-loglik-bound)
+
+
+def gain_form_lik_tol(c, model, i, rtol):
+    """(log tolerance, excluded, the gain-form term alone) for a likelihood that went through the gain form: the Gaussian density of the innovation
+    covariance Pyy = Y Y^T + R as a dense matrix (inverse() and determinant() of E Pyy E).  Its quadratic form
+    q = nu^T Pyy^-1 nu is computed through an inverse of relative accuracy eps * cond(Pyy as inverted), so the log-likelihood carries
+    an absolute error of the order eps * cond(E Pyy E) * q; this is NOT bounded by the conditioning of the serial route
+    (lik_scale: cond(I + Y^T R^-1 Y) is the condition of the WHITENED innovation covariance, which stays small when a noise
+    block is ill conditioned).  Tolerance: the larger of the two; excluded (and counted) beyond LIK_SCALE_MAX as before."""
+    ls = lik_scale(c, model, i)
+    k0, k1 = pyy_conds(c, model, i)
+    S = model.get("u_Pyy%d" % i) if model is not None else None
+    nu = model.get("f_innov%d" % i) if model is not None else None
+    q = 1.0
+    if S is not None and nu is not None and np.all(np.isfinite(S)) and np.all(np.isfinite(nu)) and S.shape[0] == nu.shape[0]:
+        e = unit_e(c).reshape(-1, 1)
+        nu0 = nu / e if e.shape[0] == nu.shape[0] else nu
+        try:
+            q = abs(float((nu0.T @ np.linalg.solve(descaled(c, S), nu0))[0, 0]))
+        except np.linalg.LinAlgError:
+            q = math.inf
+    gain = k1 * (1.0 + q)
+    return max(rtol * ls, GAIN_LIK_RTOL * gain), (ls > LIK_SCALE_MAX or GAIN_LIK_RTOL * gain > 1e-3), GAIN_LIK_RTOL * gain
+
+
+def spec_ukf(c, impl, i):
+    """The standard additive unscented correction of component i, evaluated with numpy in UNIT-FREE coordinates (state / L,
+    block j of the measurement / e_j) from the case's operands, the weights and the covariance square root A_i the
+    implementation reported (both checked elsewhere: weights against the model, A A^T = P as oracle contract), then brought
+    back to the case's units: (mean, cov, log-likelihood).  None when something needed is missing / not finite."""
+    n = int(c.meta["n"]); L = unit_L(c); e = unit_e(c).reshape(-1, 1)
+    A, wm, wc, cc = impl.get("A%d" % i), impl.get("wm"), impl.get("wc"), impl.get("c")
+    if A is None or wm is None or wc is None or cc is None or e.shape[0] != c.get("H").shape[0]:
+        return None
+    x = c.get("means")[:, [i]] / L; P = c.get("covs")[:, i * n:(i + 1) * n] / (L * L); A = A / L
+    H = c.get("H") * L / e; G = c.get("G") * L; G2 = c.get("G2") * L
+    b = c.get("b") / e; g = c.get("g") / e; y = c.get("y") / e
+    R = blockdiag_of(c) / (e @ e.T)
+    r = math.sqrt(float(cc))
+    X = np.hstack([x, x + r * A, x - r * A])
+    Z = h_eval(int(c.meta["hkind"]), H, G, G2, b, g, X)
+    wm = wm.reshape(-1, 1); wcv = wc.reshape(-1)
+    zbar = Z @ wm
+    Yd = Z - zbar; Xd = X - x
+    Pyy = (Yd * wcv) @ Yd.T + R; Pxy = (Xd * wcv) @ Yd.T
+    if not (np.all(np.isfinite(Pyy)) and np.all(np.isfinite(Pxy))):
+        return None
+    Pyy = (Pyy + Pyy.T) / 2
+    nu = y - zbar
+    K = np.linalg.solve(Pyy, Pxy.T).T
+    mean = x + K @ nu; cov = P - K @ Pyy @ K.T
+    sign, logdet = np.linalg.slogdet(Pyy)
+    if sign <= 0:
+        return None
+    m = Pyy.shape[0]
+    loglik = -0.5 * (m * math.log(2.0 * math.pi) + logdet + float((nu.T @ np.linalg.solve(Pyy, nu))[0, 0])) - float(np.sum(np.log(e)))
+    return mean * L, cov * L * L, loglik
+
+
 def comp_tols(c, model, i, cov_out, mean_out, which):
     """(tol_mean, tol_cov, excluded) for component i.  Conditioning of the two routes (measured over 14000 components incl.
     ill-conditioned noise blocks):  serial form: K_s = cond(I + Y^T R^-1 Y) + max_j cond(R_j)  (the matrix it inverts and the
@@ -447,7 +687,13 @@ def comp_tols(c, model, i, cov_out, mean_out, which):
     X C X^T with X X^T = P), so the absolute scale is max|P_i| for the covariance and the size of the mean shift for the mean.
     Measured worst: covariance 3.4e-15 * K * max|P_i|, mean 1.8e-13 * K * shift.  which = 'sukf' (SUKF impl vs model),
     'ukf' (UKF impl vs spec), 'both' (SUKF vs UKF).  A comparison whose covariance tolerance exceeds 1 % of the largest
-    posterior entry says nothing: it is excluded and counted."""
+    posterior entry says nothing: it is excluded and counted.
+    Units: K_s is the same in every unit (R_j changes by the scalar e_j^2, I + Y^T R^-1 Y not at all).  The gain form inverts
+    E Pyy E with a partially pivoted LU (Eigen's inverse(); the model's Gauss-Jordan pivots the same way): with the blocks
+    in DIFFERENT units the row scaling steers the pivoting and the conditioning is that of the matrix as it is inverted,
+    K_u = cond(E Pyy E) (observed: a span of 8.5e5 between the blocks cost the UKF likelihood 3 digits).  So with mixed block
+    units the UKF side is compared loosely or excluded, and the serial correction is additionally compared with the standard
+    additive correction evaluated in unit-free coordinates (which = 'spec': K_s + cond(Pyy), see spec_ukf)."""
     n = int(c.meta["n"]); s_ = int(c.meta["s"])
     P = c.get("covs")[:, i * n:(i + 1) * n]; x = c.get("means")[:, [i]]
     R = c.get("Rfull")
@@ -455,12 +701,12 @@ def comp_tols(c, model, i, cov_out, mean_out, which):
     cc = cond_C(c, model, i)
     ks = (cc if cc is not None else fallback) + max([float(np.linalg.cond(R[j * s_:(j + 1) * s_, j * s_:(j + 1) * s_])) for j in range(R.shape[0] // s_)] or [1.0])
     S = model.get("u_Pyy%d" % i) if model is not None else None
-    ku = float(np.linalg.cond(S)) if S is not None and np.all(np.isfinite(S)) else fallback
-    K = {"sukf": ks, "ukf": ku, "both": ks + ku}[which]
+    ku0, ku = pyy_conds(c, model, i, fallback)
+    K = {"sukf": ks, "ukf": ku, "both": ks + ku, "spec": ks + ku0}[which]
     pm = float(np.max(np.abs(P)))
     tol_cov = RTOL_COV * K * pm
     dx = float(np.max(np.abs(mean_out - x))) if mean_out is not None and np.all(np.isfinite(mean_out)) else 1.0
-    tol_mean = RTOL_MEAN * K * max(dx, 1e-3 * float(np.max(np.abs(x))), 1e-12)
+    tol_mean = RTOL_MEAN * K * max(dx, 1e-3 * float(np.max(np.abs(x))), 1e-12 * unit_L(c))
     om = float(np.max(np.abs(cov_out))) if cov_out is not None and np.all(np.isfinite(cov_out)) else math.inf
     return tol_mean, tol_cov, tol_cov > 1e-2 * om
 
@@ -492,15 +738,15 @@ def compare_single(c, impl, model, top=True):
             tm, tc, excl = comp_tols(c, model, i, a_c, a_m, "sukf")
             if excl:
                 EXCLUDED["mean_cov_ill_conditioned"] += 1; continue
-            if not caseio.close(a_m, b_m, tm, 0):
+            if not within("sukf-vs-model:mean", c, a_m, b_m, tm):
                 d.append("%s: max|impl-model|=%.3g (tol %.3g)" % (fm, caseio.maxdiff(a_m, b_m), tm))
-            if not caseio.close(a_c, b_c, tc, 0):
+            if not within("sukf-vs-model:cov", c, a_c, b_c, tc):
                 d.append("%s: max|impl-model|=%.3g (tol %.3g)" % (fc, caseio.maxdiff(a_c, b_c), tc))
             if mult:
                 ls = lik_scale(c, model, i)
                 if ls > LIK_SCALE_MAX:
                     EXCLUDED["likelihood_ill_conditioned"] += 1
-                elif not lik_close(impl.get(pre + "lik%d" % i), model.get(pre + "lik%d" % i), LIK_RTOL_MODEL * ls):
+                elif not lik_close(impl.get(pre + "lik%d" % i), model.get(pre + "lik%d" % i), LIK_RTOL_MODEL * ls, "sukf-vs-model:loglik", c):
                     d.append("%slik%d: impl=%r model=%r (log tol %.3g)" % (pre, i, impl.get(pre + "lik%d" % i), model.get(pre + "lik%d" % i), LIK_RTOL_MODEL * ls))
     if True:
         # the UKF of the implementation against the spec
@@ -511,13 +757,19 @@ def compare_single(c, impl, model, top=True):
             tm, tc, excl = comp_tols(c, model, i, a_c, a_m, "ukf")
             if excl:
                 continue
-            if not caseio.close(a_m, b_m, tm, 0):
+            if not within("ukf-vs-model:mean", c, a_m, b_m, tm):
                 d.append("u_mean%d: max|impl-model|=%.3g (tol %.3g)" % (i, caseio.maxdiff(a_m, b_m), tm))
-            if not caseio.close(a_c, b_c, tc, 0):
+            if not within("ukf-vs-model:cov", c, a_c, b_c, tc):
                 d.append("u_cov%d: max|impl-model|=%.3g (tol %.3g)" % (i, caseio.maxdiff(a_c, b_c), tc))
-            ls = lik_scale(c, model, i) if var != "offblock" else LIK_SCALE_MAX
-            if ls <= LIK_SCALE_MAX and not lik_close(impl.get("u_lik%d" % i), model.get("u_lik%d" % i), LIK_RTOL_MODEL * ls):
-                d.append("u_lik%d: impl=%r model=%r (log tol %.3g)" % (i, impl.get("u_lik%d" % i), model.get("u_lik%d" % i), LIK_RTOL_MODEL * ls))
+            # off-block R: f_innov / lik_scale are those of the block-diagonal part; the UKF likelihood is compared where R is block diagonal
+            tl, lexcl, tg = gain_form_lik_tol(c, model, i, LIK_RTOL_MODEL) if var != "offblock" else (LIK_RTOL_MODEL * LIK_SCALE_MAX, False, math.inf)
+            la, lb = impl.get("u_lik%d" % i), model.get("u_lik%d" % i)
+            if not lexcl and la is not None and lb is not None and float(la) > 1e-290 and float(lb) > 1e-290 and math.isfinite(float(la)) and math.isfinite(float(lb)) and tg < math.inf:
+                note("ukf-vs-model:loglik:fraction-of-gain-form-term", abs(math.log(float(la)) - math.log(float(lb))) / tg, c)
+            if lexcl:
+                EXCLUDED["ukf_likelihood"] += 1
+            elif not lik_close(impl.get("u_lik%d" % i), model.get("u_lik%d" % i), tl, "ukf-vs-model:loglik", c):
+                d.append("u_lik%d: impl=%r model=%r (log tol %.3g)" % (i, impl.get("u_lik%d" % i), model.get("u_lik%d" % i), tl))
     return d
 
 
@@ -536,7 +788,7 @@ def oracle_single(c, impl, model):
     # oracle contract: the SVD factor is a square root of the covariance
     for i in range(comps):
         P = covs[:, i * n:(i + 1) * n]; A = impl.get("A%d" % i)
-        tolA = 1e-12 * max(1.0, float(np.max(np.abs(P)))) * n
+        tolA = 1e-12 * max(unit_L(c) ** 2, float(np.max(np.abs(P)))) * n
         if A is None or not caseio.close(A @ A.T, P, tolA, 0):
             v.append(("C05:oracle-contract:svd-sqrt", "component %d: |A A^T - P| = %.3g" % (i, caseio.maxdiff(A @ A.T, P) if A is not None else math.nan)))
     for pre in prefixes(c):
@@ -568,16 +820,33 @@ def oracle_single(c, impl, model):
         for i in range(comps):
             sm, sc_, sl = impl.get(pre + "mean%d" % i), impl.get(pre + "cov%d" % i), impl.get(pre + "lik%d" % i)
             um, uc, ul = impl.get("u_mean%d" % i), impl.get("u_cov%d" % i), impl.get("u_lik%d" % i)
+            # the standard additive correction in unit-free coordinates (numpy): the reference that stays sharp when the blocks
+            # of the measurement are in different units (then the UKFCorrection's own inverse of E Pyy E is the ill-conditioned side)
+            spec = spec_ukf(c, impl, i) if var in ("plain", "illR", "wc0zero", "outmore") else None
+            if spec is not None:
+                tm, tc, excl = comp_tols(c, model, i, spec[1], spec[0], "spec")
+                ls = lik_scale(c, model, i)
+                if not excl:
+                    if not within("sukf-vs-spec:mean", c, sm, spec[0], tm):
+                        v.append(("C05:sukf-ne-standard-ukf:mean:%s" % flag, "component %d: max diff %.3g > %.3g (standard additive correction evaluated in unit-free coordinates)" % (i, caseio.maxdiff(sm, spec[0]), tm)))
+                    if not within("sukf-vs-spec:cov", c, sc_, spec[1], tc):
+                        v.append(("C05:sukf-ne-standard-ukf:cov:%s" % flag, "component %d: max diff %.3g > %.3g (standard additive correction evaluated in unit-free coordinates)" % (i, caseio.maxdiff(sc_, spec[1]), tc)))
+                    if ls <= LIK_SCALE_MAX and sl is not None and float(sl) > 1e-290 and math.isfinite(float(sl)):
+                        dl = abs(math.log(float(sl)) - spec[2])
+                        note("sukf-vs-spec:loglik", dl / (LIK_RTOL_UKF * ls), c)
+                        if not dl <= LIK_RTOL_UKF * ls:
+                            v.append(("C05:sukf-ne-standard-ukf:likelihood:%s" % flag, "component %d: log %r = %.17g vs %.17g (log tol %.3g)" % (i, sl, math.log(float(sl)), spec[2], LIK_RTOL_UKF * ls)))
             tm, tc, excl = comp_tols(c, model, i, uc, um, "both")
-            ls = lik_scale(c, model, i)
+            tl, lexcl, _ = gain_form_lik_tol(c, model, i, LIK_RTOL_UKF)
             if excl:
+                EXCLUDED["sukf_vs_ukf_mean_cov"] += 1
                 continue
-            if not caseio.close(sm, um, tm, 0):
+            if not within("sukf-vs-ukf:mean", c, sm, um, tm):
                 v.append(("C05:sukf-ne-ukf:mean:%s" % flag, "component %d: max diff %.3g > %.3g" % (i, caseio.maxdiff(sm, um), tm)))
-            if not caseio.close(sc_, uc, tc, 0):
+            if not within("sukf-vs-ukf:cov", c, sc_, uc, tc):
                 v.append(("C05:sukf-ne-ukf:cov:%s" % flag, "component %d: max diff %.3g > %.3g" % (i, caseio.maxdiff(sc_, uc), tc)))
-            if ls <= LIK_SCALE_MAX and not lik_close(sl, ul, LIK_RTOL_UKF * ls):
-                v.append(("C05:sukf-ne-ukf:likelihood:%s" % flag, "component %d: %r vs %r (log tol %.3g)" % (i, sl, ul, LIK_RTOL_UKF * ls)))
+            if not lexcl and not lik_close(sl, ul, tl, "sukf-vs-ukf:loglik", c):
+                v.append(("C05:sukf-ne-ukf:likelihood:%s" % flag, "component %d: %r vs %r (log tol %.3g)" % (i, sl, ul, tl)))
     if mult and c.has("Rblock") and var not in ("negwc",):
         for i in range(comps):
             tm, tc, excl = comp_tols(c, model, i, impl.get("f_cov%d" % i), impl.get("f_mean%d" % i), "sukf")
@@ -619,8 +888,17 @@ def histogram(cases):
             "cond_decade": count(lambda c: gen.decade(float(c.meta["cond"]))),
             "sequence_cases": len(seqs), "sequence_calls": count(lambda c: c.meta["steps"], seqs), "sequence_change_between_calls": changes,
             "variant": count(lambda c: c.meta.get("var", "plain")),
+            "object_lifetime": count(lambda c: c.meta.get("lifetime", "fresh"), cases),
+            "relocation_after_calls": count(lambda c: c.meta.get("reloc_at", 0), [c for c in cases if c.meta.get("lifetime", "fresh") != "fresh"]),
+            "intruder_in_callbacks": count(lambda c: c.meta.get("intrude", 0), cases),
+            "state_unit_decade": count(lambda c: gen.decade(float(c.meta.get("L", c.meta.get("L_1", 1.0)))), cases),
+            "block_unit_span_decade": count(lambda c: gen.decade(float(c.meta.get("espan", c.meta.get("espan_1", 1.0)))), cases),
+            "worst_fraction_of_tolerance": {k: float("%.3g" % v) for k, v in sorted(WORST.items())},
+            "worst_fraction_case": dict(sorted(WORST_CASE.items())),
             "likelihood_comparisons_excluded_ill_conditioned": EXCLUDED["likelihood_ill_conditioned"],
-            "mean_cov_comparisons_excluded_ill_conditioned": EXCLUDED["mean_cov_ill_conditioned"]}
+            "mean_cov_comparisons_excluded_ill_conditioned": EXCLUDED["mean_cov_ill_conditioned"],
+            "sukf_vs_ukf_mean_cov_comparisons_excluded_ill_conditioned_or_mixed_units": EXCLUDED["sukf_vs_ukf_mean_cov"],
+            "ukf_likelihood_comparisons_excluded_ill_conditioned_or_mixed_units": EXCLUDED["ukf_likelihood"]}
 
 
 LEVEL_TEXT = ("Proof: the model of SUKFCorrection::correctStep / getLikelihood (sigma points, propagation through an arbitrary measurement "
@@ -632,4 +910,4 @@ LEVEL_TEXT = ("Proof: the model of SUKFCorrection::correctStep / getLikelihood (
               "(SUKFCorrection both constructors, UKFCorrection) on the same generated cases.")
 LEVEL_NOTE = ("Trusted: Coq kernel, MathComp, extraction + float driver, list instance of the matrix interface, harness and tolerances; rounding is not "
               "modelled; the SVD square root and std::sqrt enter through their contracts (checked at run time); scope is linear layouts; "
-              "the tie to the code is sampled (300 single-call + 120 sequence cases quick / 10000 + 4000 thorough).")
+              "the tie to the code is sampled (1200 single-call + 400 sequence cases quick / 10000 + 4000 thorough; objects fresh, moved, moved after use and relocated by vector growth; with and without twin objects running inside the callbacks; state and per-block measurement units over 9 / 6 orders).")
